@@ -37,10 +37,27 @@ class HdlcFrameFactory:
             # )
             return None
 
+    @staticmethod
+    def read_response_frame(frame_data: bytes):
+        """
+        While we wait for a response the server answers with an information frame or,
+        to acknowledge a segment of a segmented request, with a receive ready frame.
+        """
+        try:
+            return frames.InformationFrame.from_bytes(frame_data)
+        except exceptions.HdlcParsingError:
+            return None
+        except ValueError:
+            # The control field is not the one of an information frame.
+            try:
+                return frames.ReceiveReadyFrame.from_bytes(frame_data)
+            except exceptions.HdlcParsingError:
+                return None
+
 
 PARSE_METHODS = {
     AWAITING_CONNECTION: HdlcFrameFactory.read_ua_frame,
-    AWAITING_RESPONSE: HdlcFrameFactory.read_information_frame,
+    AWAITING_RESPONSE: HdlcFrameFactory.read_response_frame,
     AWAITING_DISCONNECT: HdlcFrameFactory.read_ua_frame,
 }
 
